@@ -68,11 +68,23 @@ def run(chk, tier):
     chk.floor("R-GPNEXT", "imported identifier stores", ngp, 1)
     import uninit
     uninit.wire(chk, P, ["topology-xml.c", "topology-xml-nolibxml.c", "topology-xml-libxml.c"], 5)
+    from report import Check as _Check
+    chk.rule("R-OPTFIELD", "an object read from XML is accepted only with the sets the core takes for granted: the bitmap fields that the attribute reader allocates on demand are discovered; the importer is explored "
+             "with each of them absent (NULL), the type forked over normal and memory types where the type= attribute is converted, with and without a parent: no insertion and no successful return "
+             "may be reached with the field still NULL")
+    import optfield
+    nof = optfield.run(chk, P)
+    chk.floor("R-OPTFIELD", "optional object fields explored", nof, 4)
+    chk.rule("R-CAPRESET", "a function that leaves an array field of the topology NULL (destroy/clear paths) leaves the paired capacity field 0 as well: hwloc_topology_load() clears and re-initialises the same "
+             "structure after a failed load, and the next append trusts the recorded capacity (pairs discovered at the allocation sites; must-facts at every exit)")
+    import capfield
+    capfield.run(_Check("C06-pairs"), P, units=None)      # discovery of the (record, array, capacity) pairs only
+    ncr = capfield.reset_with_array(chk, P, rule="R-CAPRESET")
+    chk.floor("R-CAPRESET", "functions that leave a counted topology array NULL", ncr, 2)
     chk.rule("R-MULWIDTH", "a product of numbers converted from XML text that is computed in a type of at most 32 bits cannot wrap: the function is explored with every conversion "
              "forced to return 2^(w/2) (65536 for 32 bits, the smallest value whose square does not fit); the multiplication must be unreachable with that value, however the bound is written")
     import mulwidth
     from prog import ExampleProgram
-    from report import Check as _Check
     nmw = mulwidth.run(chk, P, XML_UNITS)
     ex = _Check("C06-example")
     E = ExampleProgram(["mulwidth.c"])
@@ -84,6 +96,8 @@ def run(chk, tier):
              loc="selftest/examples/mulwidth.c", nontrivial=False)
     chk.floor("R-MULWIDTH", "narrow products of converted numbers in the XML import code + positive example", nmw + 1, 1)
     chk.decided += ['an imported object identifier keeps next_gp_index above it',
+                    'a normal or memory object without cpuset, nodeset, complete_cpuset or complete_nodeset attribute is rejected (the core dereferences all four)',
+                    'releasing the CPU-kind array of a topology also resets its recorded capacity (a failed load followed by a second load does not append through NULL)',
                     'a number of objects read from XML is bounded before its square is computed in 32 bits (the distances matrix is allocated and bound-checked with the true number of values)',
                     'a local filled by a fallible reader is not read when the reader failed',
                     "no local allocation of the XML import/diff code is dropped on a path to a return (leak on rarely taken branches, e.g. under NO_CPUKINDS)",
